@@ -99,7 +99,8 @@ def ok_token(s):
 
 
 def run(ctx):
-    import bitcoinlib
+    import bitcoinlib, os
+    from harness.core import REPO as REPO_
     from bitcoinlib.encoding import (change_base, base58encode, addr_base58_to_pubkeyhash, addr_to_pubkeyhash, addr_bech32_to_pubkeyhash,
                                      pubkeyhash_to_addr_base58, pubkeyhash_to_addr_bech32, convertbits, EncodingError)
     from bitcoinlib.keys import Address, Key, HDKey, deserialize_address, BKeyError
@@ -313,6 +314,20 @@ def run(ctx):
         if g != want:
             ctx.violation('addr_to_pubkeyhash disagrees with the reader of the encoding the string has',
                           {'op': 'generic ' + m, 'observed': None if g is None else hexp(g), 'expected': None if want is None else hexp(want)})
+        # told which encoding to read, a string that is not of that encoding is an ERROR, not a quiet None
+        for enc_, ref_ in (('base58', b), ('bech32', w)):
+            if ref_ is None:
+                try:
+                    r_ = addr_to_pubkeyhash(m, encoding=enc_)
+                    quiet = True
+                except Exception:
+                    quiet = False
+                if quiet:
+                    ctx.count('named-encoding-quiet-answer')
+                    if not getattr(ctx, '_quiet_reported', False):
+                        ctx._quiet_reported = True
+                        ctx.violation('addr_to_pubkeyhash(.., encoding=%r) answers %r for a string that is not a valid %s address instead of raising' % (enc_, r_, enc_),
+                                      {'op': 'generic-named ' + m, 'encoding': enc_, 'observed': repr(r_)})
 
     def sweep_addr58(strings, exhaustive):
         cases = []
@@ -504,6 +519,17 @@ def run(ctx):
     if not T:
         sweep_b58check(wifs[nq[2]:nq[2] + 12], 'wif', False, 150)
         sweep_b58check(xkeys[nq[3]:nq[3] + 20], 'xkey', False, 60)
+    # the checksum test of the Base58 address reader is a test, not an assertion: with assertions switched off (python -O) a wrong
+    # checksum is still refused
+    import subprocess, sys as _sys
+    bad_ = addr58[0][:-1] + ('2' if addr58[0][-1] != '2' else '3')
+    code_ = ("import sys; sys.path.insert(0, %r)\nfrom bitcoinlib.encoding import addr_base58_to_pubkeyhash\n"
+             "try:\n    r = addr_base58_to_pubkeyhash(%r)\n    print('ACCEPTED', r.hex())\nexcept Exception as e:\n    print('REFUSED', type(e).__name__)\n" % (REPO_, bad_))
+    out_ = subprocess.run([_sys.executable, '-O', '-c', code_], capture_output=True, text=True, env=dict(os.environ)).stdout.strip()
+    ctx.evals += 1
+    ctx.count('python-O-checksum')
+    if not out_.startswith('REFUSED'):
+        ctx.violation('with assertions switched off (python -O) the Base58 address reader accepts a wrong checksum', {'op': 'python -O addr58 ' + bad_, 'observed': out_[:120]})
     ctx.exhaustive = False
     ctx.extra['valid_strings'] = {'addr58': len(addr58), 'bech32': len(bech), 'wif': len(wifs), 'xkey': len(xkeys)}
     ctx.assumptions += ['Base58Check: that a *corrupted* string is rejected reduces to "a different payload has a different '
